@@ -55,7 +55,7 @@ def octabox(sub=0):
     return dict(bitmap=bitmap, diag=(0, 255, 0, 255), subs=subs)
 
 
-def s_full(version=5, glat_version=3, compress=(), rtl=False, with_collision=True, subboxes=True, glyf=True, extra_attr_glyphs=0, dense_attrs=False, line_ends=False, cmap_edges=False, pass_bits=False, bad_glyph=None, bidi_pass=False, feat_pconstraint=False, just_step=1, many_pseudos=False, no_just=False, just_attached=False, bad_gid_char=None, lb_gid=0, excl_glyph=False, cmap12_conflict=False):
+def s_full(version=5, glat_version=3, compress=(), rtl=False, with_collision=True, subboxes=True, glyf=True, extra_attr_glyphs=0, dense_attrs=False, line_ends=False, cmap_edges=False, pass_bits=False, bad_glyph=None, bidi_pass=False, feat_pconstraint=False, just_step=1, many_pseudos=False, no_just=False, just_attached=False, bad_gid_char=None, lb_gid=0, excl_glyph=False, cmap12_conflict=False, gmetric=False):
     names = ['notdef', 'space', 'a', 'b', 'c', 'd', 'x', 'y', 'z', 'acute', 'grave', 'pseudo', 'astral', 'lig', 'e', 'f']
     glyphs = []
     for i, n in enumerate(names):
@@ -112,6 +112,8 @@ def s_full(version=5, glat_version=3, compress=(), rtl=False, with_collision=Tru
     ])
     if excl_glyph:          # every attached mark names glyph 'e' as its collision exclusion glyph: the collision pass consults a glyph that need not occur in the text
         p2b = dict(maxloop=2, rules=[Rule(0, [marks], A('PUSH_BYTE', G['e'], 'ATTR_SET', SLAT['colExclGlyph'], 'PUSH_BYTE', 20, 'ATTR_SET', SLAT['colExclOffx'], 'PUSH_BYTE', 0xF6, 'ATTR_SET', SLAT['colExclOffy'], 'NEXT', 'RET_ZERO'), name='mark {collision.exclude.glyph = e}')])          # its own positioning pass, after the attaching one
+    if gmetric:          # rules that read the face-level glyph metrics ascent (10); the synthesised fonts have no OS/2 table
+        p2['rules'] += [Rule(0, [S('z')], A('PUSH_GLYPH_METRIC', 10, 0, 0, 'ATTR_SET', SLAT['shiftY'], 'NEXT', 'RET_ZERO'), name='z {shift.y = ascent}')]      # (the loader refuses metric 11, descent)
     if just_attached:          # justification width set by RULES: on an attached glyph that keeps its advance, and on a base
         p2['rules'] += [Rule(0, [S('e'), S('b')], A('NEXT', 'PUSH_BYTE', 0xFF, 'ATTR_SET_SLOT', SLAT['attTo'], 'PUSH_SHORT', 1, 44, 'ATTR_SET', SLAT['attX'], 'PUSH_BYTE', 40, 'ATTR_SET', SLAT['jWidth'], 'NEXT', 'RET_ZERO'), name='e b > b attached to e {justify.width=40}'),
                         Rule(0, [S('e'), S('e')], A('PUSH_BYTE', 30, 'ATTR_SET', SLAT['jWidth'], 'NEXT', 'NEXT', 'RET_ZERO'), name='e {justify.width=30} / _ e')]
@@ -191,6 +193,12 @@ def feat_family():
     base['langs'] = [(tag('ufst'), [(unk[0], 2), (ids[0], 2), (ids[1], 5)]), (tag('umid'), [(ids[0], 5), (unk[1], 2), (ids[2], 2)]), (tag('ulst'), [(ids[1], 2), (ids[3], 5), (unk[2], 5)]),
                      (tag('uall'), [(unk[0], 2), (unk[1], 5)]), (tag('utwo'), [(unk[0], 2), (unk[2], 2), (ids[3], 2), (ids[0], 5)])]
     out['feat_unknownlang'] = base
+    # language defaults with values at and above 0x8000 (the Sill value field is an unsigned 16-bit number here), different from the feature's own default
+    base = s_min(); ids = [tag('hva'), tag('hvb'), tag('hvc')]
+    base['feats'] = [(ids[0], 300, 0, [(0, 301), (0x7FFF, 301), (0x8000, 301), (0xFFFF, 301)]), (ids[1], 300, 0, [(5, 301), (0x9000, 301)]), (ids[2], 300, 0, [(0, 301), (0x8001, 301)])]
+    base['names'] = {300: 'F', 301: 'S'}
+    base['langs'] = [(tag('lo'), [(ids[0], 0x7FFF)]), (tag('mid'), [(ids[0], 0x8000), (ids[1], 0x9000)]), (tag('hi'), [(ids[0], 0xFFFF), (ids[2], 0x8001)]), (tag('btw'), [(ids[0], 0x8500), (ids[1], 0x8FFF)])]
+    out['feat_highvals'] = base
     # ids spread over the whole unsigned 32-bit range (ordering / search by id must be unsigned), referenced by language defaults;
     # several low/high mixes so that any search shape meets a pair of ids that are >= 2^31 apart
     lows = [0x00000002, 0x00000003, 0x00000004, 0x00000005, 0x41424344, 0x7FFFFFFF]; highs = [0x80000000, 0x90000000, 0xA0000001, 0xF7747269, 0xFFFFFFF0, 0xFFFFFFFE]
@@ -207,7 +215,7 @@ def write_all(outdir):
     fonts = {'s_min': s_min(), 's_full': s_full(), 's_full_z': s_full(compress=('Silf', 'Glat')), 's_full_v3': s_full(version=3, glat_version=1, with_collision=False),
              's_full_v4': s_full(version=4, glat_version=2, with_collision=False), 's_full_rtl': s_full(rtl=True), 's_full_nosub': s_full(subboxes=False),
              's_full_zs': s_full(compress=('Silf',)), 's_full_zg': s_full(compress=('Glat',)),
-             's_full_noglyf': s_full(glyf=False), 's_full_extra': s_full(extra_attr_glyphs=3), 's_full_dense': s_full(dense_attrs=True), 's_full_le': s_full(line_ends=True), 's_full_le_badlb': s_full(line_ends=True, lb_gid=999), 's_full_cmapedge': s_full(cmap_edges=True), 's_full_pb': s_full(pass_bits=True, feat_pconstraint=True), 's_full_step': s_full(just_step=3), 's_full_pseudos': s_full(many_pseudos=True), 's_full_nojust': s_full(no_just=True), 's_full_jatt': s_full(just_attached=True), 's_full_excl': s_full(excl_glyph=True), 's_full_c12bmp': s_full(cmap12_conflict=True), 's_full_badgid': s_full(no_just=True, bad_gid_char=0x64), 's_full_rtl_jatt': s_full(rtl=True, just_attached=True), 's_twoclass': s_twoclass(), 's_full_unsorted': s_full(), 's_full_bidi': s_full(bidi_pass=True), 's_full_rtl_bidi': s_full(rtl=True, bidi_pass=True), 's_full_badglyph': s_full(bad_glyph='e'), 's_full_badlast': s_full(bad_glyph='f'), 's_full_rtl_le': s_full(rtl=True, line_ends=True)}
+             's_full_noglyf': s_full(glyf=False), 's_full_extra': s_full(extra_attr_glyphs=3), 's_full_dense': s_full(dense_attrs=True), 's_full_le': s_full(line_ends=True), 's_full_le_badlb': s_full(line_ends=True, lb_gid=999), 's_full_cmapedge': s_full(cmap_edges=True), 's_full_pb': s_full(pass_bits=True, feat_pconstraint=True), 's_full_step': s_full(just_step=3), 's_full_pseudos': s_full(many_pseudos=True), 's_full_nojust': s_full(no_just=True), 's_full_jatt': s_full(just_attached=True), 's_full_excl': s_full(excl_glyph=True), 's_full_gmet': s_full(gmetric=True), 's_full_c12bmp': s_full(cmap12_conflict=True), 's_full_badgid': s_full(no_just=True, bad_gid_char=0x64), 's_full_rtl_jatt': s_full(rtl=True, just_attached=True), 's_twoclass': s_twoclass(), 's_full_unsorted': s_full(), 's_full_bidi': s_full(bidi_pass=True), 's_full_rtl_bidi': s_full(rtl=True, bidi_pass=True), 's_full_badglyph': s_full(bad_glyph='e'), 's_full_badlast': s_full(bad_glyph='f'), 's_full_rtl_le': s_full(rtl=True, line_ends=True)}
     fonts.update(feat_family())
     index = {}
     for name, spec in fonts.items():
